@@ -34,19 +34,26 @@ Proof.
 Qed.
 
 (* ---------- what "the field agrees" means, per comparison ---------- *)
-(* both absent, or lists of the same kind and length *)
-Inductive same_len : option fval -> option fval -> Prop :=
-| SL_none : same_len None None
-| SL_ss a b : length a = length b -> same_len (Some (V_ss a)) (Some (V_ss b))
-| SL_ns a b : length a = length b -> same_len (Some (V_ns a)) (Some (V_ns b))
-| SL_apl a b : length a = length b -> same_len (Some (V_apl a)) (Some (V_apl b))
-| SL_pairs a b : length a = length b -> same_len (Some (V_pairs a)) (Some (V_pairs b)).
+(* lists of the same kind and length, an absent field being the empty list *)
+Definition empty_list (x : fval) : Prop :=
+  match x with V_ss [] | V_ns [] | V_apl [] | V_pairs [] => True | _ => False end.
+Definition same_len (o1 o2 : option fval) : Prop :=
+  match o1, o2 with
+  | Some (V_ss a), Some (V_ss b) => length a = length b
+  | Some (V_ns a), Some (V_ns b) => length a = length b
+  | Some (V_apl a), Some (V_apl b) => length a = length b
+  | Some (V_pairs a), Some (V_pairs b) => length a = length b
+  | None, None => True
+  | Some x, None | None, Some x => empty_list x
+  | _, _ => False
+  end.
 
 Lemma len_rel_iff o1 o2 : len_rel o1 o2 = true <-> same_len o1 o2.
 Proof.
-  split.
-  - destruct o1 as [[]|], o2 as [[]|]; cbn; try discriminate; intros H; try apply Nat.eqb_eq in H; now constructor.
-  - intros []; cbn; try reflexivity; now apply Nat.eqb_eq.
+  destruct o1 as [[]|], o2 as [[]|]; lr; cbn [same_len empty_list]; rewrite ?Nat.eqb_eq;
+    try tauto; try (split; [discriminate|tauto]);
+    try (destruct l; cbn; split; [tauto|discriminate|discriminate|tauto]);
+    destruct l; cbn; split; auto; try discriminate; tauto.
 Qed.
 
 (* APLPrefix.equals *)
@@ -70,72 +77,88 @@ Qed.
 
 Definition gw_agree (tyf : string) (mask : N) (addrf hostf : string) (v1 v2 : rdata) : Prop :=
   let ty := N.land (vget_n v1 tyf) mask in
-  vget v1 tyf = vget v2 tyf /\
+  vget_n v1 tyf = vget_n v2 tyf /\
   (ty = gw_v4 \/ ty = gw_v6 -> ip_norm (as_b (vget v1 addrf)) = ip_norm (as_b (vget v2 addrf))) /\
   (ty = gw_host -> lower_bytes (as_s (vget v1 hostf)) = lower_bytes (as_s (vget v2 hostf))).
 
+(* what "the field agrees" means, per comparison; absent = zero value throughout
+   (the as_ accessors give [] / 0 for an absent field) *)
 Definition agree (c : dcmp) (v1 v2 : rdata) : Prop :=
   match c with
-  | D_eq f => vget v1 f = vget v2 f
+  | D_eq f => val_agree (vget v1 f) (vget v2 f)
   | D_name f => lower_bytes (as_s (vget v1 f)) = lower_bytes (as_s (vget v2 f))
   | D_len_eq f => same_len (vget v1 f) (vget v2 f)
-  | D_each_eq f => vget v1 f = vget v2 f
-  | D_each_name f =>
+  | D_each_eq f =>
     same_len (vget v1 f) (vget v2 f) /\
-    map lower_bytes (as_ss (vget v1 f)) = map lower_bytes (as_ss (vget v2 f))
-  | D_each_equals f =>
-    same_len (vget v1 f) (vget v2 f) /\ Forall2 apl_agree (as_apl (vget v1 f)) (as_apl (vget v2 f))
+    as_ss (vget v1 f) = as_ss (vget v2 f) /\ as_ns (vget v1 f) = as_ns (vget v2 f)
+  | D_each_name f => map lower_bytes (as_ss (vget v1 f)) = map lower_bytes (as_ss (vget v2 f))
+  | D_each_equals f => Forall2 apl_agree (as_apl (vget v1 f)) (as_apl (vget v2 f))
   | D_ip_equal f => ip_norm (as_b (vget v1 f)) = ip_norm (as_b (vget v2 f))
-  | D_pairs f =>
-    same_len (vget v1 f) (vget v2 f) /\
-    map kv (sort_pairs (as_pairs (vget v1 f))) = map kv (sort_pairs (as_pairs (vget v2 f)))
+  | D_pairs f => map kv (sort_pairs (as_pairs (vget v1 f))) = map kv (sort_pairs (as_pairs (vget v2 f)))
   | D_gateway tyf mask addrf hostf => gw_agree tyf mask addrf hostf v1 v2
   | D_embedded _ => True
   | D_const b => b = true
   | D_other _ => False
   end.
 
-Lemma len_rel_as_ss o1 o2 : len_rel o1 o2 = true -> length (as_ss o1) = length (as_ss o2).
-Proof. destruct o1 as [[]|], o2 as [[]|]; cbn; try discriminate; try reflexivity. now rewrite Nat.eqb_eq. Qed.
-Lemma len_rel_as_apl o1 o2 : len_rel o1 o2 = true -> length (as_apl o1) = length (as_apl o2).
-Proof. destruct o1 as [[]|], o2 as [[]|]; cbn; try discriminate; try reflexivity. now rewrite Nat.eqb_eq. Qed.
-
 Lemma Forall2_impl_iff {A} (P Q : A -> A -> Prop) : (forall x y, P x y <-> Q x y) ->
   forall a b, Forall2 P a b <-> Forall2 Q a b.
 Proof. intros H a b. split; induction 1; constructor; auto; now apply H. Qed.
+
+Lemma fval_eqb_refl x : is_scalar (Some x) = true -> fval_eqb x x = true.
+Proof. destruct x; cbn; try discriminate; intros _; first [apply N.eqb_refl|apply bytes_eqb_refl]. Qed.
+Lemma opt_fval_eqb_iff a b : is_scalar a = true -> is_scalar b = true ->
+  (opt_fval_eqb a b = true <-> val_agree a b).
+Proof.
+  intros A B. split; [apply opt_fval_eqb_agree|].
+  destruct a as [x|], b as [y|]; cbn [val_agree opt_fval_eqb]; try reflexivity.
+  - intros <-. now apply fval_eqb_refl.
+  - intros E. rewrite <- E. now apply fval_eqb_refl.
+  - intros E. rewrite <- E. now apply fval_eqb_refl.
+Qed.
+
+(* under the field's own type the length test is about one list *)
+Lemma len_rel_strs o1 o2 : is_strs o1 = true -> is_strs o2 = true ->
+  len_rel o1 o2 = Nat.eqb (length (as_ss o1)) (length (as_ss o2)).
+Proof. destruct o1 as [[]|], o2 as [[]|]; cbn; try discriminate; reflexivity. Qed.
+Lemma len_rel_aplv o1 o2 : is_aplv o1 = true -> is_aplv o2 = true ->
+  len_rel o1 o2 = Nat.eqb (length (as_apl o1)) (length (as_apl o2)).
+Proof. destruct o1 as [[]|], o2 as [[]|]; cbn; try discriminate; reflexivity. Qed.
+Lemma len_rel_pairsv o1 o2 : is_pairsv o1 = true -> is_pairsv o2 = true ->
+  len_rel o1 o2 = Nat.eqb (length (as_pairs o1)) (length (as_pairs o2)).
+Proof. destruct o1 as [[]|], o2 as [[]|]; cbn; try discriminate; reflexivity. Qed.
+
+Lemma each_full_iff o1 o2 : is_eachv o1 = true -> is_eachv o2 = true -> len_rel o1 o2 = true ->
+  (each_full o1 o2 = true <-> as_ss o1 = as_ss o2 /\ as_ns o1 = as_ns o2).
+Proof.
+  destruct o1 as [[]|], o2 as [[]|]; cbn [is_eachv]; try discriminate; intros _ _; lr; try discriminate; intros L;
+    rewrite ?(list_eqb_eq_iff bytes_eqb bytes_eqb_eq), ?(list_eqb_eq_iff N.eqb N.eqb_eq); tauto.
+Qed.
 
 Lemma ideal_agree c v1 v2 : is_plain c = true -> typed1 v1 c = true -> typed1 v2 c = true ->
   (ideal c v1 v2 = true <-> agree c v1 v2).
 Proof.
   unfold ideal. destruct c; intros P T1 T2; try discriminate P; cbn [pre_b rawb agree typed1 andb] in *.
-  - (* D_eq *) split; [apply opt_fval_eqb_eq|]. intros <-. now apply opt_fval_eqb_refl.
+  - (* D_eq *) now apply opt_fval_eqb_iff.
   - apply name_eq_ci_iff.
   - apply len_rel_iff.
-  - (* D_each_eq *) split.
-    + destruct (vget v1 f) as [[]|], (vget v2 f) as [[]|]; cbn [len_rel each_rel]; rewrite ?andb_false_r; try discriminate; try reflexivity;
-        rewrite list_eqb_firstn; intros H; do 2 f_equal.
-      * now apply (list_eqb_eq_iff bytes_eqb bytes_eqb_eq).
-      * now apply (list_eqb_eq_iff N.eqb N.eqb_eq).
-    + intros <-. destruct (vget v1 f) as [[]|]; cbn in *; try discriminate; try reflexivity;
-        rewrite Nat.eqb_refl, firstn_all; cbn; apply list_eqb_refl; [apply bytes_eqb_refl|apply N.eqb_refl].
-  - (* D_each_name *) rewrite andb_true_iff, <- len_rel_iff. split.
-    + intros [L H]. split; [exact L|]. rewrite (len_rel_as_ss _ _ L), firstn_all in H.
-      now apply (list_eqb_map_key name_eq_ci lower_bytes name_eq_ci_iff).
-    + intros [L H]. split; [exact L|]. rewrite (len_rel_as_ss _ _ L), firstn_all.
-      now apply (list_eqb_map_key name_eq_ci lower_bytes name_eq_ci_iff).
-  - (* D_each_equals *) rewrite andb_true_iff, <- len_rel_iff. split.
-    + intros [L H]. split; [exact L|]. rewrite (len_rel_as_apl _ _ L), firstn_all in H.
-      apply list_eqb_Forall2 in H. revert H. apply Forall2_impl_iff. intros; symmetry; apply apl_equals_iff.
-    + intros [L H]. split; [exact L|]. rewrite (len_rel_as_apl _ _ L), firstn_all.
-      apply list_eqb_Forall2. revert H. apply Forall2_impl_iff. apply apl_equals_iff.
+  - (* D_each_eq *) rewrite andb_true_iff, <- len_rel_iff. split.
+    + intros [L E]. split; [exact L|]. rewrite (each_rel_full _ _ L) in E. now apply each_full_iff.
+    + intros [L E]. split; [exact L|]. rewrite (each_rel_full _ _ L). now apply each_full_iff.
+  - (* D_each_name *) rewrite (len_rel_strs _ _ T1 T2), list_eqb_firstn.
+    apply (list_eqb_map_key name_eq_ci lower_bytes name_eq_ci_iff).
+  - (* D_each_equals *) rewrite (len_rel_aplv _ _ T1 T2), list_eqb_firstn, list_eqb_Forall2.
+    apply Forall2_impl_iff. apply apl_equals_iff.
   - (* D_ip_equal *) apply bytes_eqb_eq.
-  - (* D_pairs *) rewrite andb_true_iff, <- len_rel_iff, (list_eqb_map_key pair_eqb kv pair_eqb_iff). reflexivity.
+  - (* D_pairs *) rewrite (len_rel_pairsv _ _ T1 T2), andb_true_iff, (list_eqb_map_key pair_eqb kv pair_eqb_iff), Nat.eqb_eq.
+    split; [tauto|]. intros E. split; [|exact E].
+    apply (f_equal (@length _)) in E. now rewrite !map_length, !sort_pairs_length in E.
   - (* D_gateway *) unfold gw_agree, gw_rel. rewrite andb_true_iff.
-    apply andb_prop in T1. destruct T1 as [T1 _]. apply andb_prop in T1. destruct T1 as [T1 _].
-    assert (S1 : is_scalar (vget v1 tyf) = true) by (destruct (vget v1 tyf) as [[]|]; cbn in *; congruence).
+    apply andb_prop in T1, T2. destruct T1 as [T1 _], T2 as [T2 _]. apply andb_prop in T1, T2. destruct T1 as [T1 _], T2 as [T2 _].
     set (ty := N.land (vget_n v1 tyf) mask).
-    assert (E : opt_fval_eqb (vget v1 tyf) (vget v2 tyf) = true <-> vget v1 tyf = vget v2 tyf).
-    { split; [apply opt_fval_eqb_eq|]. intros <-. now apply opt_fval_eqb_refl. }
+    assert (E : opt_fval_eqb (vget v1 tyf) (vget v2 tyf) = true <-> vget_n v1 tyf = vget_n v2 tyf).
+    { unfold vget_n. destruct (vget v1 tyf) as [[]|], (vget v2 tyf) as [[]|]; cbn in T1, T2; try discriminate;
+        cbn [opt_fval_eqb fval_eqb zero_like]; rewrite ?N.eqb_eq; split; congruence. }
     rewrite E. unfold gw_v4, gw_v6, gw_host.
     destruct (ty =? 1) eqn:E1; [|destruct (ty =? 2) eqn:E2; [|destruct (ty =? 3) eqn:E3]]; cbn [orb];
       unfold ip_equal; rewrite ?bytes_eqb_eq, ?name_eq_ci_iff; split; intros [A B]; repeat split; auto; try tauto; try (intros; lia).
@@ -259,34 +282,99 @@ Proof.
 Qed.
 
 (* ---------- field by field ---------- *)
+Definition is_encv (o : option fval) : bool := match o with None | Some (V_enc _) => true | _ => false end.
+Definition is_nsv (o : option fval) : bool := match o with None | Some (V_ns _) => true | _ => false end.
+(* the field of pack statement p holds a value of the Go type of that field (or is absent) *)
+Definition field_typed (v : rdata) (p : pfield) : bool :=
+  let o := vget v (fst p) in
+  match snd p with
+  | K_u8 | K_u16 | K_u32 | K_u48 | K_u64 => is_num o
+  | K_name _ | K_string | K_octet | K_any => is_str o
+  | K_txt | K_names _ => is_strs o
+  | K_hex _ | K_hexdash _ | K_b64 _ | K_b32 _ => is_encv o
+  | K_a | K_aaaa => is_ip o
+  | K_nsec => is_nsv o
+  | K_opt | K_svcb => is_pairsv o
+  | K_apl => is_aplv o
+  | K_gateway tyf addrf hostf _ _ => is_num (vget v tyf) && is_ip (vget v addrf) && is_str (vget v hostf)
+  end.
+Definition layout_typed (L : tlayout) (v : rdata) : bool := forallb (field_typed v) (tl_pack L).
+
+(* agreement of one wire field, on the Go values (absent = zero value) *)
 Definition field_agree (p : pfield) (v1 v2 : rdata) : Prop :=
   let o1 := vget v1 (fst p) in let o2 := vget v2 (fst p) in
   match snd p with
+  | K_u8 | K_u16 | K_u32 | K_u48 | K_u64 => as_n o1 = as_n o2
   | K_name _ => lower_bytes (as_s o1) = lower_bytes (as_s o2)
-  | K_names _ => same_len o1 o2 /\ map lower_bytes (as_ss o1) = map lower_bytes (as_ss o2)
-  | K_txt | K_nsec => o1 = o2
+  | K_string | K_octet | K_any => as_s o1 = as_s o2
+  | K_txt => as_ss o1 = as_ss o2
+  | K_names _ => map lower_bytes (as_ss o1) = map lower_bytes (as_ss o2)
+  | K_hex _ | K_hexdash _ | K_b64 _ | K_b32 _ => as_enc o1 = as_enc o2
   | K_a | K_aaaa => ip_norm (as_b o1) = ip_norm (as_b o2)
-  | K_svcb | K_opt => same_len o1 o2 /\ map kv (sort_pairs (as_pairs o1)) = map kv (sort_pairs (as_pairs o2))
-  | K_apl => same_len o1 o2 /\ Forall2 apl_agree (as_apl o1) (as_apl o2)
+  | K_nsec => as_ns o1 = as_ns o2
+  | K_opt | K_svcb => map kv (sort_pairs (as_pairs o1)) = map kv (sort_pairs (as_pairs o2))
+  | K_apl => Forall2 apl_agree (as_apl o1) (as_apl o2)
   | K_gateway tyf addrf hostf mask _ => gw_agree tyf mask addrf hostf v1 v2
-  | _ => o1 = o2
   end.
 
-Lemma same_len_refl o : is_listv o = true -> same_len o o.
-Proof. destruct o as [[]|]; cbn; try discriminate; intros _; now constructor. Qed.
+Lemma field_typed_typed1 v p c : field_typed v p = true -> In c (expected_cmps p) -> typed1 v c = true.
+Proof.
+  destruct p as [f k]. unfold field_typed, expected_cmps. cbn [fst snd]. intros T.
+  destruct k; cbn [In]; intros H; repeat (destruct H as [<-|H]); try destruct H; cbn [typed1]; try exact T;
+    destruct (vget v f) as [[]|]; cbn in T |- *; congruence.
+Qed.
 
-Lemma field_agree_iff p v1 v2 :
-  (forall c, In c (expected_cmps p) -> typed1 v1 c = true) ->
+Lemma val_agree_num o1 o2 : is_num o1 = true -> is_num o2 = true -> (val_agree o1 o2 <-> as_n o1 = as_n o2).
+Proof. destruct o1 as [[]|], o2 as [[]|]; cbn; try discriminate; intros _ _; split; intros; first [congruence|exact I]. Qed.
+Lemma val_agree_str o1 o2 : is_str o1 = true -> is_str o2 = true -> (val_agree o1 o2 <-> as_s o1 = as_s o2).
+Proof. destruct o1 as [[]|], o2 as [[]|]; cbn; try discriminate; intros _ _; split; intros; first [congruence|exact I]. Qed.
+Lemma val_agree_enc o1 o2 : is_encv o1 = true -> is_encv o2 = true -> (val_agree o1 o2 <-> as_enc o1 = as_enc o2).
+Proof. destruct o1 as [[]|], o2 as [[]|]; cbn; try discriminate; intros _ _; split; intros; first [congruence|exact I]. Qed.
+
+Lemma same_len_strs o1 o2 : is_strs o1 = true -> is_strs o2 = true ->
+  (same_len o1 o2 <-> length (as_ss o1) = length (as_ss o2)).
+Proof. intros A B. now rewrite <- len_rel_iff, (len_rel_strs _ _ A B), Nat.eqb_eq. Qed.
+Lemma same_len_aplv o1 o2 : is_aplv o1 = true -> is_aplv o2 = true ->
+  (same_len o1 o2 <-> length (as_apl o1) = length (as_apl o2)).
+Proof. intros A B. now rewrite <- len_rel_iff, (len_rel_aplv _ _ A B), Nat.eqb_eq. Qed.
+Lemma same_len_pairsv o1 o2 : is_pairsv o1 = true -> is_pairsv o2 = true ->
+  (same_len o1 o2 <-> length (as_pairs o1) = length (as_pairs o2)).
+Proof. intros A B. now rewrite <- len_rel_iff, (len_rel_pairsv _ _ A B), Nat.eqb_eq. Qed.
+Lemma same_len_nsv o1 o2 : is_nsv o1 = true -> is_nsv o2 = true ->
+  (same_len o1 o2 <-> length (as_ns o1) = length (as_ns o2)).
+Proof.
+  rewrite <- len_rel_iff. destruct o1 as [[]|], o2 as [[]|]; cbn [is_nsv]; try discriminate; intros _ _; lr; rewrite ?Nat.eqb_eq; tauto.
+Qed.
+Lemma strs_as_ns o : is_strs o = true -> as_ns o = [].
+Proof. destruct o as [[]|]; cbn; try discriminate; reflexivity. Qed.
+Lemma nsv_as_ss o : is_nsv o = true -> as_ss o = [].
+Proof. destruct o as [[]|]; cbn; try discriminate; reflexivity. Qed.
+
+Lemma Forall2_len {A B} (R : A -> B -> Prop) a b : Forall2 R a b -> length a = length b.
+Proof. induction 1; cbn; congruence. Qed.
+
+Lemma field_agree_iff p v1 v2 : field_typed v1 p = true -> field_typed v2 p = true ->
   (field_agree p v1 v2 <-> forall c, In c (expected_cmps p) -> agree c v1 v2).
 Proof.
-  destruct p as [f k]. unfold field_agree, expected_cmps. cbn [fst snd]. intros T.
+  destruct p as [f k]. unfold field_agree, field_typed, expected_cmps. cbn [fst snd]. intros T1 T2.
   assert (X1 : forall c (P : Prop), (P <-> agree c v1 v2) -> (P <-> forall d, In d [c] -> agree d v1 v2)).
   { intros c P H. rewrite H. split; [intros A d [<-|[]]; exact A|intros A; apply A; now left]. }
   assert (X2 : forall c d (P : Prop), (P <-> agree c v1 v2 /\ agree d v1 v2) -> (P <-> forall x, In x [c; d] -> agree x v1 v2)).
   { intros c d P H. rewrite H. split; [intros [A B] x [<-|[<-|[]]]; assumption|intros A; split; apply A; cbn; auto]. }
-  destruct k; try (apply X1; reflexivity); apply X2; cbn [agree]; try tauto;
-    (split; [intros E; split; [|exact E]|tauto]);
-    rewrite <- E; apply same_len_refl; apply (T (D_len_eq f)); now left.
+  destruct k; first [apply X1|apply X2]; cbn [agree]; try reflexivity;
+    try (symmetry; now apply val_agree_num); try (symmetry; now apply val_agree_str); try (symmetry; now apply val_agree_enc).
+  - (* K_txt *) rewrite (same_len_strs _ _ T1 T2), (strs_as_ns _ T1), (strs_as_ns _ T2).
+    split; [intros E; rewrite E; auto|tauto].
+  - (* K_nsec *) rewrite (same_len_nsv _ _ T1 T2), (nsv_as_ss _ T1), (nsv_as_ss _ T2).
+    split; [intros E; rewrite E; auto|tauto].
+  - (* K_opt *) rewrite (same_len_pairsv _ _ T1 T2). split; [|tauto]. intros E. split; [|exact E].
+    apply (f_equal (@length _)) in E. now rewrite !map_length, !sort_pairs_length in E.
+  - (* K_svcb *) rewrite (same_len_pairsv _ _ T1 T2). split; [|tauto]. intros E. split; [|exact E].
+    apply (f_equal (@length _)) in E. now rewrite !map_length, !sort_pairs_length in E.
+  - (* K_apl *) rewrite (same_len_aplv _ _ T1 T2). split; [|tauto]. intros E. split; [|exact E].
+    eapply Forall2_len; eauto.
+  - (* K_names *) rewrite (same_len_strs _ _ T1 T2). split; [|tauto]. intros E. split; [|exact E].
+    apply (f_equal (@length _)) in E. now rewrite !map_length in E.
 Qed.
 
 Lemma in_layout_cmps L c :
@@ -297,36 +385,37 @@ Proof.
   - intros [H| ->]; [now left|right; now left].
 Qed.
 
+Lemma layout_typed_for L v : layout_typed L v = true -> typed_for (layout_cmps L) v = true.
+Proof.
+  intros T. unfold layout_typed in T. rewrite forallb_forall in T. unfold typed_for. apply forallb_forall.
+  intros c Hc. apply in_layout_cmps in Hc. destruct Hc as [[p [Hp Hc]]| ->]; [|reflexivity].
+  exact (field_typed_typed1 v p c (T p Hp) Hc).
+Qed.
+
 Lemma is_duplicate_iff_fields r1 r2 L :
   rr_kind r1 <> "OPT"%string -> find_layout layouts (rr_kind r1) = Some L ->
-  typed_for (layout_cmps L) (rr_data r1) = true -> typed_for (layout_cmps L) (rr_data r2) = true ->
+  layout_typed L (rr_data r1) = true -> layout_typed L (rr_data r2) = true ->
   (is_duplicate r1 r2 = Ok true <->
    rr_class r1 = rr_class r2 /\ rr_type r1 = rr_type r2 /\ rr_kind r1 = rr_kind r2 /\
    lower_bytes (rr_name r1) = lower_bytes (rr_name r2) /\
    forall p, In p (tl_pack L) -> field_agree p (rr_data r1) (rr_data r2)).
 Proof.
-  intros K FL T1 T2. pose proof (layout_dup _ _ K FL) as FD. pose proof (find_dup_wf _ _ FD) as W.
-  assert (TY : forall p, In p (tl_pack L) -> forall c, In c (expected_cmps p) -> typed1 (rr_data r1) c = true).
-  { intros p Hp c Hc. unfold typed_for in T1. rewrite forallb_forall in T1. apply T1. apply in_layout_cmps. left. eauto. }
+  intros K FL LT1 LT2. pose proof (layout_dup _ _ K FL) as FD. pose proof (find_dup_wf _ _ FD) as W.
+  pose proof (layout_typed_for _ _ LT1) as T1. pose proof (layout_typed_for _ _ LT2) as T2.
+  unfold layout_typed in LT1, LT2. rewrite forallb_forall in LT1, LT2.
   split.
   - intros H. destruct (is_duplicate_true_header _ _ H) as [A [B [C D]]]. repeat split; auto.
     destruct (is_duplicate_true_inv _ _ H) as [_ [_ [cs [F' DC]]]]. rewrite FD in F'. injection F' as <-.
     rewrite (dup_cmps_true_iff _ _ _ W T1 T2) in DC.
-    intros p Hp. apply (field_agree_iff p _ _ (TY p Hp)). intros c Hc. apply DC. apply in_layout_cmps. left. eauto.
+    intros p Hp. apply (field_agree_iff p _ _ (LT1 p Hp) (LT2 p Hp)). intros c Hc. apply DC. apply in_layout_cmps. left. eauto.
   - intros [A [B [C [D E]]]]. rewrite is_duplicate_unfold. unfold hdr_eq.
     rewrite A, B, !N.eqb_refl, (proj2 (name_eq_ci_iff _ _) D), <- C, String.eqb_refl, FD. cbn [andb negb].
     apply (dup_cmps_true_iff _ _ _ W T1 T2). intros c Hc. apply in_layout_cmps in Hc. destruct Hc as [[p [Hp Hc]]| ->].
-    + exact (proj1 (field_agree_iff p _ _ (TY p Hp)) (E p Hp) c Hc).
+    + exact (proj1 (field_agree_iff p _ _ (LT1 p Hp) (LT2 p Hp)) (E p Hp) c Hc).
     + reflexivity.
 Qed.
 
 (* ---------- (2) the kinds of value the generated unpack() assigns ---------- *)
-Inductive vclass := C_n | C_s | C_ss | C_b | C_enc | C_ns | C_pairs | C_apl.
-Definition class_of (x : fval) : vclass :=
-  match x with
-  | V_n _ => C_n | V_s _ => C_s | V_ss _ => C_ss | V_b _ => C_b | V_enc _ => C_enc
-  | V_ns _ => C_ns | V_pairs _ => C_pairs | V_apl _ => C_apl
-  end.
 Definition vclass_eqb (a b : vclass) : bool :=
   match a, b with
   | C_n, C_n | C_s, C_s | C_ss, C_ss | C_b, C_b | C_enc, C_enc | C_ns, C_ns | C_pairs, C_pairs | C_apl, C_apl => true
@@ -474,8 +563,78 @@ Qed.
 Lemma typed_for_nil cs : typed_for cs [] = true.
 Proof. unfold typed_for. apply forallb_forall. intros c _. destruct c; reflexivity. Qed.
 
+(* the same for the field types of the layout *)
+Definition field_class_ok (p : pfield) (g : string) (cl : vclass) : bool :=
+  let on f l := negb (String.eqb g f) || cl_in cl l in
+  match snd p with
+  | K_u8 | K_u16 | K_u32 | K_u48 | K_u64 => on (fst p) [C_n]
+  | K_name _ | K_string | K_octet | K_any => on (fst p) [C_s]
+  | K_txt | K_names _ => on (fst p) [C_ss]
+  | K_hex _ | K_hexdash _ | K_b64 _ | K_b32 _ => on (fst p) [C_enc]
+  | K_a | K_aaaa => on (fst p) [C_b]
+  | K_nsec => on (fst p) [C_ns]
+  | K_opt | K_svcb => on (fst p) [C_pairs]
+  | K_apl => on (fst p) [C_apl]
+  | K_gateway tyf addrf hostf _ _ => on tyf [C_n] && on addrf [C_b] && on hostf [C_s]
+  end.
+
+Lemma field_typed_of_classes acs v p :
+  Forall (classed acs) v -> forallb (fun gc => field_class_ok p (fst gc) (snd gc)) acs = true -> field_typed v p = true.
+Proof.
+  intros G T. destruct p as [f k]. unfold field_typed, field_class_ok in *. cbn [fst snd] in *.
+  destruct k.
+  1-21: pose proof (vget_class acs v f _ G T) as H; destruct (vget v f) as [[]|]; cbn in H |- *; congruence.
+  assert (T3 : forallb (fun gc => negb (String.eqb (fst gc) tyf) || cl_in (snd gc) [C_n]) acs = true /\
+               forallb (fun gc => negb (String.eqb (fst gc) addrf) || cl_in (snd gc) [C_b]) acs = true /\
+               forallb (fun gc => negb (String.eqb (fst gc) hostf) || cl_in (snd gc) [C_s]) acs = true).
+  { rewrite !forallb_forall in *. repeat split; intros gc Hgc; specialize (T gc Hgc);
+      apply andb_prop in T; destruct T as [T T3]; apply andb_prop in T; destruct T as [T1 T2]; assumption. }
+  destruct T3 as [A [B C]].
+  pose proof (vget_class acs v tyf _ G A) as HA. pose proof (vget_class acs v addrf _ G B) as HB.
+  pose proof (vget_class acs v hostf _ G C) as HC.
+  destruct (vget v tyf) as [[]|], (vget v addrf) as [[]|], (vget v hostf) as [[]|]; cbn in HA, HB, HC |- *; congruence.
+Qed.
+
+(* table checks: the unpack statements of a layout assign every pack field a value
+   of that field's type, and no field two kinds of value *)
+Lemma layout_classes_fit_fields :
+  forallb (fun L => forallb (fun p => forallb (fun gc => field_class_ok p (fst gc) (snd gc)) (layout_classes L)) (tl_pack L))
+          layouts = true.
+Proof. vm_compute. reflexivity. Qed.
+
+Definition classes_functional (acs : list (string * vclass)) : bool :=
+  forallb (fun a => forallb (fun b => negb (String.eqb (fst a) (fst b)) || vclass_eqb (snd a) (snd b)) acs) acs.
+Lemma layout_classes_functional : forallb (fun L => classes_functional (layout_classes L)) layouts = true.
+Proof. vm_compute. reflexivity. Qed.
+
+Lemma vclass_eqb_eq a b : vclass_eqb a b = true -> a = b.
+Proof. destruct a, b; cbn; congruence. Qed.
+
+Lemma classed_same_shape acs v1 v3 : classes_functional acs = true ->
+  Forall (classed acs) v1 -> Forall (classed acs) v3 -> same_shape v1 v3.
+Proof.
+  intros F G1 G3 f. unfold kinds_ok. destruct (vget v1 f) as [x|] eqn:E1; [|exact I].
+  destruct (vget v3 f) as [y|] eqn:E3; [|exact I].
+  apply vget_in in E1, E3. rewrite Forall_forall in G1, G3. specialize (G1 _ E1). specialize (G3 _ E3).
+  unfold classed in G1, G3. cbn [fst snd] in G1, G3.
+  unfold classes_functional in F. rewrite forallb_forall in F. specialize (F _ G1). rewrite forallb_forall in F.
+  specialize (F _ G3). cbn [fst snd] in F. rewrite String.eqb_refl in F. cbn in F. now apply vclass_eqb_eq.
+Qed.
+
+Lemma unpacked_rdata_layout_typed k L msg off v off' :
+  find_layout layouts k = Some L ->
+  unpack_fields (tl_unpack L) [] msg off = Ok (v, off') -> layout_typed L v = true.
+Proof.
+  intros FL U. apply find_layout_in in FL. destruct FL as [Hin _].
+  pose proof layout_classes_fit_fields as T. rewrite forallb_forall in T. specialize (T L Hin). rewrite forallb_forall in T.
+  unfold layout_typed. apply forallb_forall. intros p Hp.
+  apply (field_typed_of_classes (layout_classes L)); [exact (unpack_layout_classes L msg off v off' U)|exact (T p Hp)].
+Qed.
+
+Lemma layout_typed_nil L : layout_typed L [] = true.
+Proof. unfold layout_typed. apply forallb_forall. intros [f k] _. destruct k; reflexivity. Qed.
+
 (* ---------- records obtained from the wire ---------- *)
-Definition has_dup (k : string) : bool := match find_dup dups k with Some _ => true | None => false end.
 (* table check: every Go type UnpackRR can produce has a comparison list, and
    among them only OPT ends in return false *)
 Lemma unpacked_kinds_have_comparisons :
@@ -503,26 +662,38 @@ Proof.
   exists cs. split; [reflexivity|]. apply orb_prop in T. destruct T as [T|T]; [now left|right; now apply String.eqb_eq].
 Qed.
 
+(* what UnpackRR guarantees about the RDATA it returns *)
+Definition wire_rdata (r : rr) : Prop :=
+  rr_data r = [] \/
+  exists L, find_layout layouts (rr_kind r) = Some L /\ Forall (classed (layout_classes L)) (rr_data r) /\
+            layout_typed L (rr_data r) = true.
+
 Local Opaque layouts dups type_to_rr kind_of_type unpack_fields.
 
 Lemma unpack_rr_with_header_typed h msg off r off' :
   unpack_rr_with_header h msg off = Ok (r, off') ->
+  wire_rdata r /\
   exists cs, find_dup dups (rr_kind r) = Some cs /\ typed_for cs (rr_data r) = true /\
              (no_const_false cs = true \/ rr_kind r = "OPT"%string).
 Proof.
   unfold unpack_rr_with_header. destruct (kind_of_type_dup (h_type h)) as [cs [FD NC]].
   destruct (lenN msg <? off); [discriminate|]. destruct (lenN msg <? off + h_rdlength h); [discriminate|].
   destruct (h_rdlength h =? 0).
-  - intros H. injection H as <- _. cbn [rr_kind rr_data]. exists cs. split; [exact FD|]. split; [apply typed_for_nil|exact NC].
+  - intros H. injection H as <- _. cbn [rr_kind rr_data]. split; [now left|].
+    exists cs. split; [exact FD|]. split; [apply typed_for_nil|exact NC].
   - destruct (find_layout layouts (kind_of_type (h_type h))) as [L|] eqn:FL; [|discriminate].
     destruct (unpack_fields (tl_unpack L) [] msg off) as [[v o]| | |] eqn:U; cbn [bind fst snd]; try discriminate.
     destruct (o =? off + h_rdlength h); [|discriminate].
-    intros H. injection H as <- _. cbn [rr_kind rr_data]. exists cs. split; [exact FD|]. split; [|exact NC].
-    exact (unpacked_rdata_typed _ L cs msg off v o FL FD U).
+    intros H. injection H as <- _. unfold wire_rdata. cbn [rr_kind rr_data]. split.
+    + right. exists L. split; [exact FL|]. split; [exact (unpack_layout_classes L msg off v o U)|].
+      exact (unpacked_rdata_layout_typed _ L msg off v o FL U).
+    + exists cs. split; [exact FD|]. split; [|exact NC].
+      exact (unpacked_rdata_typed _ L cs msg off v o FL FD U).
 Qed.
 
 Lemma unpack_rr_typed msg off r off' :
   unpack_rr msg off = Ok (r, off') ->
+  wire_rdata r /\
   exists cs, find_dup dups (rr_kind r) = Some cs /\ typed_for cs (rr_data r) = true /\
              (no_const_false cs = true \/ rr_kind r = "OPT"%string).
 Proof.
@@ -530,11 +701,41 @@ Proof.
   apply unpack_rr_with_header_typed.
 Qed.
 
+Lemma wire_rdata_layout_typed r L : wire_rdata r -> find_layout layouts (rr_kind r) = Some L ->
+  layout_typed L (rr_data r) = true.
+Proof.
+  intros [E|[L' [FL [_ T]]]] F; [rewrite E; apply layout_typed_nil|]. rewrite F in FL. injection FL as <-. exact T.
+Qed.
+
+Lemma wire_rdata_same_shape r1 r3 : wire_rdata r1 -> wire_rdata r3 -> rr_kind r1 = rr_kind r3 ->
+  same_shape (rr_data r1) (rr_data r3).
+Proof.
+  intros [E1|[L1 [F1 [G1 _]]]] W3 K.
+  - rewrite E1. intros f. exact I.
+  - destruct W3 as [E3|[L3 [F3 [G3 _]]]].
+    + rewrite E3. intros f. unfold kinds_ok. cbn. now destruct (vget (rr_data r1) f).
+    + rewrite <- K, F1 in F3. injection F3 as <-. apply (classed_same_shape (layout_classes L1)); auto.
+      apply find_layout_in in F1. destruct F1 as [Hin _].
+      pose proof layout_classes_functional as T. rewrite forallb_forall in T. exact (T _ Hin).
+Qed.
+
 Lemma unpacked_rr_is_own_duplicate msg off r off' :
   unpack_rr msg off = Ok (r, off') -> rr_kind r <> "OPT"%string -> is_duplicate r r = Ok true.
 Proof.
-  intros U K. destruct (unpack_rr_typed _ _ _ _ U) as [cs [FD [T [NC|NC]]]]; [|contradiction].
+  intros U K. destruct (unpack_rr_typed _ _ _ _ U) as [_ [cs [FD [T [NC|NC]]]]]; [|contradiction].
   exact (is_duplicate_refl_cs r cs FD NC T).
+Qed.
+
+(* transitivity on records from the wire, no side condition *)
+Lemma unpacked_rr_duplicate_trans m1 o1 r1 o1' m3 o3 r3 o3' r2 :
+  unpack_rr m1 o1 = Ok (r1, o1') -> unpack_rr m3 o3 = Ok (r3, o3') ->
+  is_duplicate r1 r2 = Ok true -> is_duplicate r2 r3 = Ok true -> is_duplicate r1 r3 = Ok true.
+Proof.
+  intros U1 U3 H1 H2. apply (is_duplicate_trans r1 r2 r3); auto.
+  destruct (unpack_rr_typed _ _ _ _ U1) as [W1 _]. destruct (unpack_rr_typed _ _ _ _ U3) as [W3 _].
+  apply wire_rdata_same_shape; auto.
+  destruct (is_duplicate_true_header _ _ H1) as [_ [_ [K1 _]]]. destruct (is_duplicate_true_header _ _ H2) as [_ [_ [K2 _]]].
+  congruence.
 Qed.
 
 (* duplicates among records from the wire: header and every wire field agree *)
@@ -546,33 +747,36 @@ Lemma unpacked_rr_duplicate_iff m1 o1 r1 o1' m2 o2 r2 o2' L :
    lower_bytes (rr_name r1) = lower_bytes (rr_name r2) /\
    forall p, In p (tl_pack L) -> field_agree p (rr_data r1) (rr_data r2)).
 Proof.
-  intros U1 U2 K FL. pose proof (layout_dup _ _ K FL) as FD.
-  destruct (unpack_rr_typed _ _ _ _ U1) as [cs1 [F1 [T1 _]]]. rewrite FD in F1. injection F1 as <-.
+  intros U1 U2 K FL.
+  destruct (unpack_rr_typed _ _ _ _ U1) as [W1 _]. destruct (unpack_rr_typed _ _ _ _ U2) as [W2 _].
   destruct (String.eqb (rr_kind r1) (rr_kind r2)) eqn:E.
-  - apply String.eqb_eq in E. destruct (unpack_rr_typed _ _ _ _ U2) as [cs2 [F2 [T2 _]]].
-    rewrite <- E, FD in F2. injection F2 as <-. now apply is_duplicate_iff_fields.
+  - apply String.eqb_eq in E. apply is_duplicate_iff_fields; auto.
+    + now apply wire_rdata_layout_typed.
+    + apply wire_rdata_layout_typed; [exact W2|]. now rewrite <- E.
   - apply String.eqb_neq in E. split.
     + intros H. apply is_duplicate_true_header in H. tauto.
     + tauto.
 Qed.
 
-(* ---------- absent field versus zero value ---------- *)
+(* ---------- truncated RDATA ---------- *)
 (* The generated unpack() returns early when the RDATA is exhausted, leaving the
-   remaining struct fields at their zero value; the model leaves them absent and
-   its comparisons tell an absent field from a present zero value.  Witness: CAA
-   with RDATA 00 (Flag only) and with RDATA 00 00 (Flag, empty Tag).  The Go
-   library answers IsDuplicate = true for this pair (both are
-   CAA(Flag 0, Tag empty, Value empty)) although the RDATA octets differ; the model
-   answers false. *)
-Definition caa_wire_short : bytes := [1;97;0; 1;1; 0;1; 0;0;0;60; 0;1; 0].
-Definition caa_wire_empty_tag : bytes := [1;97;0; 1;1; 0;1; 0;0;0;60; 0;2; 0;0].
-Lemma absent_field_vs_zero_value_witness :
+   remaining struct fields at their zero value.  So a record whose RDATA stops
+   after field k and the record that carries explicit zero values for the next
+   fields decode to equal structs: IsDuplicate holds although the RDATA octets
+   differ.  Witness: CAA with RDATA 00 (Flag only) and with RDATA 00 00 (Flag,
+   empty Tag); the Go library answers IsDuplicate = true for this pair. *)
+Definition caa_hdr : bytes := [1;97;0; 1;1; 0;1; 0;0;0;60].
+Definition caa_wire_short : bytes := caa_hdr ++ [0;1] ++ [0].
+Definition caa_wire_empty_tag : bytes := caa_hdr ++ [0;2] ++ [0;0].
+Lemma truncated_rdata_witness :
   match unpack_rr caa_wire_short 0, unpack_rr caa_wire_empty_tag 0 with
-  | Ok (r1, _), Ok (r2, _) =>
+  | Ok (r1, o1), Ok (r2, o2) =>
     rr_kind r1 = "CAA"%string /\ rr_kind r2 = "CAA"%string /\
+    o1 = lenN caa_wire_short /\ o2 = lenN caa_wire_empty_tag /\
     rr_data r1 = [("Flag"%string, V_n 0)] /\
     rr_data r2 = [("Flag"%string, V_n 0); ("Tag"%string, V_s [])] /\
-    is_duplicate r1 r2 = Ok false /\ is_duplicate r1 r1 = Ok true /\ is_duplicate r2 r2 = Ok true
+    ([0] : bytes) <> [0; 0] /\
+    is_duplicate r1 r2 = Ok true /\ is_duplicate r2 r1 = Ok true
   | _, _ => False
   end.
-Proof. vm_compute. repeat split. Qed.
+Proof. vm_compute. repeat split; discriminate. Qed.
